@@ -1033,6 +1033,41 @@ pub assume_specification<T: Ord, const N: usize>[<BTreeSet<T> as From<[T; N]>>::
     ensures vstd::laws_cmp::obeys_cmp::<T>() ==> r@ == a@.to_set(),
 ;
 
+// all letters are generators or inverse generators of a group with b generators (what the coset table needs of a relator)
+pub open spec fn within(s: Seq<isize>, b: int) -> bool { forall|k: int| 0 <= k < s.len() ==> -b <= #[trigger] s[k] <= b }
+
+proof fn lemma_reduce_from_within(buf: Seq<isize>, s: Seq<isize>, b: int)
+    requires within(buf, b), within(s, b)
+    ensures within(reduce_from(buf, s), b)
+    decreases s.len()
+{
+    if s.len() > 0 {
+        let nb = step(buf, s[0]);
+        assert(within(nb, b)) by {
+            assert(-b <= s[0] <= b);
+            assert forall|k: int| 0 <= k < nb.len() implies -b <= #[trigger] nb[k] <= b by { if k < buf.len() { assert(-b <= buf[k] <= b); } }
+        }
+        assert(within(s.drop_first(), b)) by { assert forall|k: int| 0 <= k < s.drop_first().len() implies -b <= #[trigger] s.drop_first()[k] <= b by { assert(s.drop_first()[k] == s[k + 1]); } }
+        lemma_reduce_from_within(nb, s.drop_first(), b);
+    }
+}
+
+proof fn lemma_is_perm_within(fw: Seq<isize>, u: Seq<isize>, b: int)
+    requires is_perm(fw, u), within(fw, b), letters_ok(fw)
+    ensures within(u, b)
+{
+    let k = choose|k: int| 0 <= k < fw.len() && (#[trigger] rot(fw, k) == u || inv_w(rot(fw, k)) == u);
+    let raw = fw.skip(k) + fw.take(k);
+    assert(within(raw, b)) by { assert forall|j: int| 0 <= j < raw.len() implies -b <= #[trigger] raw[j] <= b by { if j < fw.len() - k { assert(raw[j] == fw[k + j]); } else { assert(raw[j] == fw[j - (fw.len() - k)]); } } }
+    assert(within(Seq::<isize>::empty(), b));
+    lemma_reduce_from_within(Seq::empty(), raw, b);
+    let r = rot(fw, k);
+    assert(letters_ok(raw)) by { assert forall|j: int| 0 <= j < raw.len() implies #[trigger] raw[j] > isize::MIN by { if j < fw.len() - k { assert(raw[j] == fw[k + j]); } else { assert(raw[j] == fw[j - (fw.len() - k)]); } } }
+    lemma_reduce_reduced(raw);
+    assert(within(neg_rev(r), b)) by { assert forall|j: int| 0 <= j < neg_rev(r).len() implies -b <= #[trigger] neg_rev(r)[j] <= b by { assert(-b <= r[r.len() - 1 - j] <= b); assert(r[r.len() - 1 - j] > isize::MIN); } }
+    lemma_reduce_from_within(Seq::empty(), neg_rev(r), b);
+}
+
 pub open spec fn has_view(s: Set<FreeWord>, v: Seq<isize>) -> bool { exists|u: FreeWord| #[trigger] s.contains(u) && u@ == v }
 
 //@ begin src/fpgroups/free_words.rs :: - :: fn relator_permutations
@@ -1046,8 +1081,11 @@ pub fn relator_permutations(fw: &FreeWord) -> (result: BTreeSet<FreeWord>)
         // ... and every candidate is a member: the set is exactly the rotations and their inverses
         fw@.len() == 0 ==> has_view(result@, fw@),
         forall|k: int| 0 <= k < fw@.len() ==> has_view(result@, #[trigger] rot(fw@, k)) && has_view(result@, inv_w(rot(fw@, k))),
+        // in the form unit `cosets` imports: the word itself is a member, and members use no letter beyond those of the word
+        has_view(result@, fw@),
+        forall|u: FreeWord, b: int| #![trigger result@.contains(u), within(fw@, b)] result@.contains(u) && within(fw@, b) ==> within(u@, b),
 {
-    proof { axiom_vec_len_isize(&fw.w); axiom_obeys_cmp::<FreeWord>(); }
+    proof { axiom_vec_len_isize(&fw.w); axiom_obeys_cmp::<FreeWord>(); use_type_invariant(fw); }
     if fw.w.len() == 0 {
         let __c = fw.clone();
         let __a = [__c];
@@ -1083,6 +1121,13 @@ pub fn relator_permutations(fw: &FreeWord) -> (result: BTreeSet<FreeWord>)
                         assert(result@.contains(u1)); assert(result@.contains(u2));
                     }
                 }
+            }
+        }
+        proof {
+            assert(fw@.skip(0) + fw@.take(0) =~= fw@); lemma_reduce_id(fw@);
+            assert(has_view(result@, rot(fw@, 0)));
+            assert forall|u: FreeWord, b: int| #![trigger result@.contains(u), within(fw@, b)] result@.contains(u) && within(fw@, b) implies within(u@, b) by {
+                lemma_is_perm_within(fw@, u@, b);
             }
         }
         result
